@@ -322,8 +322,12 @@ func TestWorker(t *testing.T) {
 				budget = 1
 			}
 		}
+		shrinkDeadline := time.Now().Add(40 * time.Second)
 		test := func(tr []uint64) (string, []uint64) {
 			beat.Add(1)
+			if time.Now().After(shrinkDeadline) {
+				return "", nil // out of shrinking time: keep what we have
+			}
 			ch := ReplayChoices(tr)
 			o := runOnce(t, e, ch, cfg) // no pin: any fault of the enumeration may witness the class
 			if o.Class == v.Class {
